@@ -787,6 +787,43 @@ def h_merge(first, second, handle, cut, deep):
     return {"outcome": "value", **describe(new)}
 
 
+MEMDOCS: dict = {}  # handle -> AOEFObject kept in memory by the caller
+
+
+def h_mem_save(src, doc, audio_dir=None, audio_as="str"):
+    """to_aeof: the document stays in memory (no file)."""
+    from soundevent.io import aoef  # noqa: PLC0415
+
+    obj = _resolve_source(src)
+    kwargs = {}
+    if audio_dir is not None:
+        kwargs["audio_dir"] = _as(audio_dir, audio_as)
+    try:
+        MEMDOCS[doc] = aoef.to_aeof(obj, **kwargs)
+        text = MEMDOCS[doc].model_dump_json(exclude_none=True)
+    except Exception as exc:
+        return _outcome_of(exc)
+    return {"outcome": "ack", "text": text}
+
+
+def h_mem_load(doc, handle, audio_dir=None, audio_as="str"):
+    """to_soundevent on a document the caller kept in memory (possibly for
+    the second or third time)."""
+    from soundevent.io import aoef  # noqa: PLC0415
+
+    if doc not in MEMDOCS:
+        return {"outcome": "skipped"}
+    kwargs = {}
+    if audio_dir is not None:
+        kwargs["audio_dir"] = _as(audio_dir, audio_as)
+    try:
+        obj = aoef.to_soundevent(MEMDOCS[doc], **kwargs)
+    except Exception as exc:
+        return _outcome_of(exc)
+    OBJECTS[handle] = obj
+    return {"outcome": "value", **describe(obj)}
+
+
 def h_forget(handle):
     OBJECTS.pop(handle, None)
     return {"outcome": "ack"}
@@ -800,6 +837,8 @@ HANDLERS = {
     "forget": h_forget,
     "touch": h_touch,
     "merge": h_merge,
+    "mem_save": h_mem_save,
+    "mem_load": h_mem_load,
 }
 
 
@@ -829,6 +868,9 @@ def serve(conn) -> None:
         shims.UUIDS.calls = 0
         shims.arm(env.get("fault"), env.get("root", "/nonexistent"))
         shims.STATE.root = env.get("root")
+        root = env.get("root")
+        if root and os.path.isdir(root) and os.getcwd() != root:
+            os.chdir(root)  # every request starts in the run directory
         shims.arm_audio(env.get("audio_fault"))
         try:
             handler = HANDLERS[request["op"]]
@@ -1094,7 +1136,9 @@ def a_load_clip(recording, start, end, handle, audio_dir=None, audio_as="str"):
     rec = _recording_from(recording)
     clip = data.Clip(recording=rec, start_time=start, end_time=end)
     kwargs = {}
-    if audio_dir is not None:
+    if audio_dir is not None and str(audio_dir).startswith("cwd:"):
+        os.chdir(str(audio_dir)[4:])
+    elif audio_dir is not None:
         kwargs["audio_dir"] = _as(audio_dir, audio_as)
     try:
         arr = audio.load_clip(clip, **kwargs)
@@ -1110,7 +1154,9 @@ def a_load_recording(recording, handle, audio_dir=None, audio_as="str"):
 
     rec = _recording_from(recording)
     kwargs = {}
-    if audio_dir is not None:
+    if audio_dir is not None and str(audio_dir).startswith("cwd:"):
+        os.chdir(str(audio_dir)[4:])
+    elif audio_dir is not None:
         kwargs["audio_dir"] = _as(audio_dir, audio_as)
     try:
         arr = audio.load_recording(rec, **kwargs)
